@@ -4,8 +4,9 @@
 (* (ast/serde.go, lexer rules STRING / BYTESTRING) over a SYMBOLIC         *)
 (* character alphabet.  A string is a sequence of character classes:       *)
 (*   "plain" "space" "dq" "sq" "bt" "bs" "lf" "cr" "tab" "nul" "del" "pct" *)
-(*   "slash" "n" "t" "x" "u" "hex" "lb" "rb" "u2" (2-byte rune) "u4"       *)
-(*   (4-byte rune) "bad" (a byte that is not UTF-8; byte strings only)     *)
+(*   "slash" "n" "t" "x" "u" "hex" "lb" "rb" "u2" "u3" "u4" (2-, 3-, 4-byte *)
+(*   runes) "repl" (U+FFFD, the valid code point that decoders also return *)
+(*   for an encoding error) "bad" (a byte that is not UTF-8; byte strings) *)
 (* The escaped text is a sequence of tokens: <<"raw", c>> stands for the      *)
 (* character itself, <<"esc", c>> for backslash + c, <<"hexesc", class>>   *)
 (* for \xHH and <<"uniesc", class>> for \u{...}.                           *)
@@ -16,17 +17,17 @@
 EXTENDS Sequences, FiniteSets, Naturals, TLC
 CONSTANT CRMode
 Classes == {"plain", "space", "dq", "sq", "bt", "bs", "lf", "cr", "tab", "nul", "del", "pct", "slash",
-            "n", "t", "x", "u", "hex", "lb", "rb", "u2", "u4"}
+            "n", "t", "x", "u", "hex", "lb", "rb", "u2", "u3", "u4", "repl"}
 ByteClasses == Classes \cup {"bad"}
 
 EscChar(c, isBytes) ==
   IF isBytes
-  THEN (IF c \in {"dq", "sq", "lf", "tab", "bs", "u2", "u4", "bad"} \/ (c = "cr" /\ CRMode = "hex") THEN <<"hexesc", c>> ELSE <<"raw", c>>)
+  THEN (IF c \in {"dq", "sq", "lf", "tab", "bs", "u2", "u3", "u4", "repl", "bad"} \/ (c = "cr" /\ CRMode = "hex") THEN <<"hexesc", c>> ELSE <<"raw", c>>)
   ELSE CASE c \in {"dq", "sq", "bs"} -> <<"esc", c>>
          [] c = "lf" -> <<"esc", "n">>
          [] c = "tab" -> <<"esc", "t">>
          [] c = "cr" -> IF CRMode = "hex" THEN <<"hexesc", "cr">> ELSE <<"raw", "cr">>
-         [] c \in {"u2", "u4"} -> <<"uniesc", c>>
+         [] c \in {"u2", "u3", "u4", "repl"} -> <<"uniesc", c>>
          [] OTHER -> <<"raw", c>>
 Escape(s, isBytes) == [i \in DOMAIN s |-> EscChar(s[i], isBytes)]
 
